@@ -4554,3 +4554,87 @@ def separator_cut_rules(ctx):
             if not ok_:
                 ctx.violate('arg-flow|%s|cut-not-checked' % f.path, 'the prefix length used to cut the routing key (%s) is not the value compared against the two key lengths (%d matching comparisons): the cut may reach the end of the right key' % (s_.describe(tx), len(same)), f, line)
     ctx.check(n >= 2, 'floor|separator-impls', 'prefix-cutting Key::separator implementations analysed: %d' % n)
+
+
+def survey_residue_rules(ctx):
+    """Remaining state writes found by the deletion survey (second reading of the survivors)."""
+    ctx.set_rule('C07.R10', 'an invalidated savepoint leaves both tracker sets')
+    f = ctx.fn(TT + '::invalidate_savepoints')
+    if f is not None:
+        for callee, what in (('BTreeMap::remove', 'valid_savepoints'), ('BTreeSet::remove', 'persistent_savepoints')):
+            p = ctx.sites(f, callee, exact=1)
+            if p:
+                ctx.each_iteration_passes(f, p, 'every invalidated id leaves %s' % what, 'kept-in-%s' % what)
+    ctx.set_rule('C01.R12', 'recovery adopts the layout recalculated from the file length before choosing a slot')
+    f = ctx.fn('UnrepairedDatabaseHeader::finalize')
+    if f is not None:
+        lf = ctx.sites(f, 'UnrepairedDatabaseHeader::layout_from_file_len', exact=2)
+        sl = ctx.sites(f, 'DatabaseHeader::set_layout', exact=2)
+        sp = ctx.sites(f, 'UnrepairedDatabaseHeader::select_primary_slot', exact=2)
+        for p in lf:
+            r = core.reach(f, start=(p.bb, len(f.blocks[p.bb]['s'])), cut_blocks={q.bb for q in sl} | core.error_blocks(f))
+            bad = [q for q in sp if q.bb in r['term']] or [rb for rb in f.ret_blocks() if rb in r['term']]
+            ctx._ob(not bad, ctx.sample('must-pass', f, p.line, 'a recalculated layout is installed before the slot is chosen'))
+            if bad:
+                ctx.violate('must-pass|%s|layout-not-installed' % f.path, 'a layout recalculated from the file length can be dropped: the slot is chosen (or the header returned) with the stale stored layout', f, p.line)
+        for p in sl:
+            ctx.flows(f, p, 1, from_call='UnrepairedDatabaseHeader::layout_from_file_len')
+    f = ctx.fn('DatabaseHeader::to_bytes')
+    if f is not None:
+        s_ = core.sym(f)
+        # the primary slot index reaches the serialised header
+        hit = False
+        for b in f.blocks:
+            for st in b['s']:
+                if st[0] == 'a' and st[1][1] and any(p.startswith('[') for p in st[1][1]):
+                    for o in _rv_operands(st[2]):
+                        if o[0] != 'k':
+                            ls, calls, args, consts = core.flow_sources(f, o)
+                            d = s_.describe(s_.operand(o))
+                            if 'primary_slot' in d:
+                                hit = True
+                            for bb_ in calls:
+                                cs = core.CallSite(f, bb_, f.blocks[bb_]['t'])
+                                if cs.t['a'] and 'primary_slot' in s_.describe(s_.operand(cs.t['a'][0])):
+                                    hit = True
+        ctx.check(hit, 'arg-flow|%s|primary-index' % f.path, 'the primary slot index is written into the serialised header', f, f.line)
+        e_magic = core.guard_edges(f, [Guard(place='include_magic_number', vals={'true'})])
+        ctx.check(bool(e_magic), 'guard-missing|%s|magic' % f.path, 'to_bytes tests include_magic_number', f, f.line)
+        cps = [cpoint(c) for c in f.calls if c.matches('copy_from_slice')]
+        if e_magic and cps:
+            r = core.reach(f, cut_edges=e_magic)
+            own = [p for p in cps if p.bb not in r['term']]
+            ctx.check(len(own) >= 1, 'guard|%s|magic-written' % f.path, 'the magic number is copied on the include_magic_number arm', f, f.line)
+    ctx.set_rule('C06.R4b', '')
+    for pat in ('TableTree::list_tables',):
+        f = ctx.fn(pat)
+        if f is None:
+            continue
+        vp = [cpoint(c) for c in f.calls_to('Vec::push')]
+        ctx.check(len(vp) == 1, 'floor|%s|push' % f.path, 'list_tables collects names', f, f.line)
+        if vp:
+            ctx.each_iteration_passes(f, vp, 'every table name yielded by the catalog iterator is returned', 'table-name-dropped')
+    ctx.set_rule('C06.R10', '')
+    f = ctx.fn(WT + '::store_system_freed_pages')
+    if f is not None:
+        for cl in [c for c in f.closures if c.calls_to('PageListMut::push_back')]:
+            pb = ctx.sites(cl, 'PageListMut::push_back', exact=1)
+            # the closure reports that it stored something: a `true` is written through a captured reference after every push
+            trues = []
+            for bi, b in enumerate(cl.blocks):
+                for si, st in enumerate(b['s']):
+                    if st[0] == 'a' and st[1][1] and st[1][1][-1] == '*' and st[2]['k'] == 'use' and st[2]['o'][0] == 'k' and st[2]['o'][2] is True:
+                        trues.append(Point(cl, bi, si, 'stored_pages = true', st[3]))
+            ctx.check(len(trues) >= 1, 'floor|%s|stored-flag' % cl.path, 'the closure records that pages were stored', cl, cl.line)
+            if pb and trues:
+                r = core.reach(cl, start=(pb[0].bb, len(cl.blocks[pb[0].bb]['s'])), cut_points={(t.bb, t.idx) for t in trues}, cut_blocks=core.error_blocks(cl))
+                nxt = [m for m in cl.calls if m.declared and m.declared.split('::')[-1] == 'next' and 'Iterator' in m.declared]
+                bad = [m for m in nxt if m.bb in r['term']] or [rb for rb in cl.ret_blocks() if rb in r['term']]
+                ctx._ob(not bad, ctx.sample('must-pass', cl, pb[0].line, 'push_back is followed by stored_pages = true'))
+                if bad:
+                    ctx.violate('must-pass|%s|stored-flag-skipped' % cl.path, 'a page can be written into a SYSTEM_FREED_TABLE record without the caller being told that records were stored (the commit is then not registered as having unprocessed freed pages)', cl, pb[0].line)
+    ctx.set_rule('C05.R6', '')
+    f = ctx.fn('TableTreeMut::clear_root_updates_and_close')
+    if f is not None:
+        call_rule(ctx, 'TableTreeMut::clear_root_updates_and_close', 'BTreeMap::clear', 'staged roots are dropped', exact=1, exits='any')
+        call_rule(ctx, 'TableTreeMut::clear_root_updates_and_close', 'PageTracker::close', 'the allocation tracker is closed', exact=1, exits='any')
